@@ -36,6 +36,7 @@ import (
 	"github.com/ErdemOzgen/blackdagger/internal/dag/scheduler"
 	"github.com/ErdemOzgen/blackdagger/internal/persistence/local"
 	"github.com/ErdemOzgen/blackdagger/internal/persistence/model"
+	"github.com/ErdemOzgen/blackdagger/internal/util"
 	"github.com/robfig/cron/v3"
 	"golang.org/x/sys/unix"
 )
@@ -318,6 +319,13 @@ func dagFacts(d *dag.DAG, evalConds bool) map[string]any {
 	}
 	f["handlers"] = hs
 	f["sched"] = []int{len(d.Schedule), len(d.StopSchedule), len(d.RestartSchedule)}
+	exprs := [][]string{{}, {}, {}}
+	for i, l := range [][]dag.Schedule{d.Schedule, d.StopSchedule, d.RestartSchedule} {
+		for _, sc := range l {
+			exprs[i] = append(exprs[i], hx(sc.Expression))
+		}
+	}
+	f["scheds"] = exprs
 	cronOK := true
 	for _, l := range [][]dag.Schedule{d.Schedule, d.StopSchedule, d.RestartSchedule} {
 		for _, s := range l {
@@ -681,20 +689,70 @@ func plantAt(node *tree, segs []string, leaf *tree) {
 	plantAt(child, segs[1:], leaf)
 }
 
+// callOf: a valid call of the document's function `fn` (its only parameter is VERIF_CANARY_KEY, so the generic
+// map plant {VERIF_CANARY_KEY: <canary>} at `call.args` is a well-formed argument list)
+func callOf(arg string) *tree {
+	return mp("function", str("fn"), "args", mp("VERIF_CANARY_KEY", str(arg)))
+}
+
 func canaryDoc(path, variant, canary string) string {
 	doc := mp("name", str("canarydag"),
-		"functions", &tree{kind: "l", list: []*tree{mp("name", str("fn"), "params", str("p"), "command", str("echo $p"))}},
+		"functions", &tree{kind: "l", list: []*tree{mp("name", str("fn"), "params", str("VERIF_CANARY_KEY"), "command", str("echo $VERIF_CANARY_KEY"))}},
 		"steps", &tree{kind: "l", list: []*tree{mp("name", str("s1"), "command", str("true"))}})
 	segs := strings.Split(path, ".")
 	// handler steps and function-call steps need their mandatory companions so that the load gets as far as possible
 	if segs[0] == "handlerOn" && len(segs) > 1 {
 		doc.set("handlerOn", mp(segs[1], mp("command", str("true"))))
 	}
-	plantAt(doc, segs, planted(variant, canary))
+	leaf := planted(variant, canary)
+	switch {
+	case segs[0] == "functions[]":
+		// a function is only evaluated through a step / handler that calls it: both are present
+		doc.set("steps", &tree{kind: "l", list: []*tree{mp("name", str("s1"), "call", callOf("x"))}})
+		doc.set("handlerOn", mp("exit", mp("call", callOf("y"))))
+		if path == "functions[].command" && variant == "str" {
+			// the canary sits after the first word of the command template, next to the parameter
+			leaf = str("echo $VERIF_CANARY_KEY " + canary)
+		}
+	case len(segs) >= 2 && segs[len(segs)-2] == "call" || segs[len(segs)-1] == "call":
+		// the step (or handler) is a call step: a complete call first, then the plant overwrites its part
+		holder := mp("name", str("s1"), "call", callOf("x"))
+		if segs[0] == "handlerOn" && len(segs) > 1 {
+			holder = mp("call", callOf("x"))
+			doc.set("handlerOn", mp(segs[1], holder))
+		} else {
+			doc.set("steps", &tree{kind: "l", list: []*tree{holder}})
+		}
+	}
+	plantAt(doc, segs, leaf)
 	var b strings.Builder
 	emit(doc, &b)
 	b.WriteByte('\n')
 	return b.String()
+}
+
+// reachedDAG: the canary text arrived in the loaded DAG (the definition was accepted and the planted value
+// flowed into a field of the DAG) — the control that a plant is live even where nothing evaluates it at load time
+func reachedDAG(d *dag.DAG, marker string) bool {
+	if d == nil {
+		return false
+	}
+	js, err := json.Marshal(d)
+	return err == nil && strings.Contains(string(js), marker)
+}
+
+// startSplit does to every step and handler what scheduler.Node.setupExec does when the DAG is STARTED:
+// util.SplitCommandWithParse(CmdWithArgs), which runs back-tick substitutions (run-time positive control)
+func startSplit(d *dag.DAG) {
+	steps := []*dag.Step{d.HandlerOn.Exit, d.HandlerOn.Success, d.HandlerOn.Failure, d.HandlerOn.Cancel}
+	for i := range d.Steps {
+		steps = append(steps, &d.Steps[i])
+	}
+	for _, st := range steps {
+		if st != nil && st.CmdWithArgs != "" {
+			_, _ = util.SplitCommandWithParse(st.CmdWithArgs)
+		}
+	}
 }
 
 func runCanary(c map[string]any) map[string]any {
@@ -722,25 +780,34 @@ func runCanary(c map[string]any) map[string]any {
 			}
 		}()
 		var err error
+		var d *dag.DAG
+		defer func() { res["reached"] = reachedDAG(d, canaryFile) }()
 		switch entry {
 		case "LoadYAML":
-			_, err = dag.LoadYAML([]byte(doc))
+			d, err = dag.LoadYAML([]byte(doc))
 		case "LoadMetadata":
 			_ = os.WriteFile(file, []byte(doc), 0o644)
-			_, err = dag.LoadMetadata(file)
+			d, err = dag.LoadMetadata(file)
 		case "LoadWithoutEval":
 			_ = os.WriteFile(file, []byte(doc), 0o644)
-			_, err = dag.LoadWithoutEval(file)
+			d, err = dag.LoadWithoutEval(file)
 		case "Load":
 			_ = os.WriteFile(file, []byte(doc), 0o644)
-			_, err = dag.Load("", file, "")
+			d, err = dag.Load("", file, "")
+		case "StartSplit":
+			// starting the DAG: evaluating load, then the command split of node.setupExec
+			_ = os.WriteFile(file, []byte(doc), 0o644)
+			d, err = dag.Load("", file, "")
+			if err == nil && d != nil {
+				startSplit(d)
+			}
 		case "UpdateSpec":
 			_ = os.WriteFile(file, []byte("name: canarydag\nsteps:\n  - name: s\n    command: \"true\"\n"), 0o644)
 			before = snapshotEnv()
 			err = local.NewDAGStore(&local.NewDAGStoreArgs{Dir: dagsDir}).UpdateSpec("canarydag", []byte(doc))
 		case "GetDetails":
 			_ = os.WriteFile(file, []byte(doc), 0o644)
-			_, err = local.NewDAGStore(&local.NewDAGStoreArgs{Dir: dagsDir}).GetDetails("canarydag")
+			d, err = local.NewDAGStore(&local.NewDAGStoreArgs{Dir: dagsDir}).GetDetails("canarydag")
 		case "List":
 			_ = os.WriteFile(file, []byte(doc), 0o644)
 			var errs []string
